@@ -391,7 +391,7 @@ func viewFeatures(t, alt *gen.TD, classIf func(bool, string)) {
 
 var subUnpack = runlog.Register(&runlog.Sub[Case]{
 	Name: "prefilled-unpack",
-	Rule: "random struct type (reflect.StructOf over all primitive kinds, named variants, durations, regexps, pointers, slices, arrays, maps, nested and inline structs; ignored and unexported fields; replace/append/prepend/merge tags at any depth; GO FIELD NAMES: half of the fields are called F<i> / f<i> / G<i>x<n>, the others (tagged, untagged, ignored and inline fields alike) start with an upper-case letter outside ASCII (2-, 3- and 4-byte encodings; Kelvin sign and dotted capital I, whose lower case is an ASCII letter; capital sharp s, whose lower case is shorter; a letter without lower case; a digraph with a separate title case), carry such letters behind an ASCII first letter, are 30-300 bytes long, carry a tag that equals the Go name or differs from it only in case (upper-cased, lower-cased), or differ only in case from a sibling (exported/unexported, and - in this sub-check - exported/exported with different tags); unexported fields also start with a lower-case, caseless or title-case letter outside ASCII or an underscore (also before an upper-case letter); untagged fields are read under strings.ToLower of whatever the name is; catalogue types with InitDefaults, Validate and Unpack methods, among them types that implement the Unpacker interfaces and STORE settings in their receiver before they fail: UnpInt (IntUnpacker, overwrites itself, then rejects 13), CfgUnp (ConfigUnpacker: unpacks field by field into its receiver through a method-less twin type `type plain T`, then rejects hi == 13) and AnyUnp (Unpacker(interface{}): the same from the map it receives), as fields, behind pointers, in slices, arrays and maps; in 1 of 8 cases the target itself is a catalogue struct: with InitDefaults and Validate, or (3 of 8 of those) one that implements ConfigUnpacker / Unpacker), a pre-filled value, a configuration built from the type that mentions a random subset of the fields (valid settings of the right shape; nil settings count as not mentioned; settings under the names of ignored/unexported fields), a global policy option, and in 30% of the cases one injected fault (unconvertible setting, wrong shape, failing Validate of a primitive or of a struct after all its fields, failing Unpacker, the type's own Unpack failing after it stored the object's settings in its receiver, failing validate tag on a mentioned or an absent field) at a position biased to late fields. In 1 of 6 generated types two fields anywhere in the nest of struct values are pre-filled from the SAME slice (the whole slice, or two windows of one backing array so that the spare capacity of one is the contents of the other), map or pointer, and in 1 of 12 cases two places below slices share one flat slice: a field that shares a pointer, a map or a slice holding pointers or maps never gets a setting and must keep its identity and its direct contents (what it shares may change through the other field); places that share a flat slice may both be mentioned and must each come out as if they did not share. On success the target must equal the expectation built from the pre-filled value, the type's own InitDefaults, every mentioned primitive unpacked alone into a fresh zero target, and the list policy in force (unmentioned parts bit for bit); on error the struct must hold its previous values (maps and pointees by identity only); without a fault Unpack must succeed. Non-trivial: at least one mentioned primitive setting and at least one unmentioned field with a non-zero pre-filled value, or Unpack failed at an injected fault that is processed after at least one mentioned setting. Distinct: hash of the whole case.",
+	Rule: "random struct type (reflect.StructOf over all primitive kinds, named variants, durations, regexps, pointers, slices, arrays, maps, nested and inline structs; ignored and unexported fields; replace/append/prepend/merge tags at any depth; GO FIELD NAMES: half of the fields are called F<i> / f<i> / G<i>x<n>, the others (tagged, untagged, ignored and inline fields alike) start with an upper-case letter outside ASCII (2-, 3- and 4-byte encodings; Kelvin sign and dotted capital I, whose lower case is an ASCII letter; capital sharp s, whose lower case is shorter; a letter without lower case; a digraph with a separate title case), carry such letters behind an ASCII first letter, are 30-300 bytes long, carry a tag that equals the Go name or differs from it only in case (upper-cased, lower-cased), or differ only in case from a sibling (exported/unexported, and - in this sub-check - exported/exported with different tags); unexported fields also start with a lower-case, caseless or title-case letter outside ASCII or an underscore (also before an upper-case letter); untagged fields are read under strings.ToLower of whatever the name is; catalogue types with InitDefaults, Validate and Unpack methods, among them types that implement the Unpacker interfaces and STORE settings in their receiver before they fail: UnpInt (IntUnpacker, overwrites itself, then rejects 13), CfgUnp (ConfigUnpacker: unpacks field by field into its receiver through a method-less twin type `type plain T`, then rejects hi == 13) and AnyUnp (Unpacker(interface{}): the same from the map it receives), as fields, behind pointers, in slices, arrays and maps; in 1 of 8 cases the target itself is a catalogue struct: with InitDefaults and Validate, or (3 of 8 of those) one that implements ConfigUnpacker / Unpacker), a pre-filled value, a configuration built from the type that mentions a random subset of the fields (valid settings of the right shape; nil settings count as not mentioned; settings under the names of ignored/unexported fields; LIST SPELLINGS: a slice place - field, element, map value, pointee, at any depth, pre-filled with nil, an empty or a 1-3 element slice - gets a list of 0-3 settings or, 1 time in 4, the PLAIN value of one element instead of the list [v] (only where the element's own setting is a primitive; also for nested list types, where one value stands for [[v]]), an array of one element gets the plain value 1 time in 3), a global policy option, and in 30% of the cases one injected fault (unconvertible setting, wrong shape, failing Validate of a primitive or of a struct after all its fields, failing Unpacker, the type's own Unpack failing after it stored the object's settings in its receiver, failing validate tag on a mentioned or an absent field) at a position biased to late fields. In 1 of 6 generated types two fields anywhere in the nest of struct values are pre-filled from the SAME slice (the whole slice, or two windows of one backing array so that the spare capacity of one is the contents of the other), map or pointer, and in 1 of 12 cases two places below slices share one flat slice: a field that shares a pointer, a map or a slice holding pointers or maps never gets a setting and must keep its identity and its direct contents (what it shares may change through the other field); places that share a flat slice may both be mentioned and must each come out as if they did not share. On success the target must equal the expectation built from the pre-filled value, the type's own InitDefaults, every mentioned primitive unpacked alone into a fresh zero target, and the list policy in force (unmentioned parts bit for bit), where a plain value given for a list is merged with the old elements exactly like the list of that one element (documentation of Unpack: 'Primitive values will be handled like arrays of length 1') - index-wise with the old tail kept, appended, prepended or replacing, by global option or tag - and an object given for a list is not asserted; on error the struct must hold its previous values (maps and pointees by identity only); without a fault Unpack must succeed. Non-trivial: at least one mentioned primitive setting and at least one unmentioned field with a non-zero pre-filled value, or Unpack failed at an injected fault that is processed after at least one mentioned setting. Distinct: hash of the whole case.",
 	Gen:  genCase,
 	Run:  runCase,
 })
